@@ -27,6 +27,7 @@ type stats struct {
 	KnownHits  map[string]int `json:"known_hits"`
 	Samples    []string       `json:"samples"`
 	Roots      []string       `json:"roots"`
+	Digest     uint64         `json:"history_digest"` // order-sensitive hash of every history line (determinism self-test)
 }
 
 var st = &stats{Ops: map[string]int{}, Faults: map[string]int{}, Probes: map[string]int{}, Classes: map[string]int{}, KnownHits: map[string]int{}}
@@ -55,6 +56,12 @@ func (h *history) finish() {
 	st.mu.Lock()
 	defer st.mu.Unlock()
 	st.Iterations++
+	for _, l := range h.lines {
+		for i := 0; i < len(l); i++ {
+			st.Digest = (st.Digest ^ uint64(l[i])) * 1099511628211
+		}
+		st.Digest = (st.Digest ^ 0xff) * 1099511628211
+	}
 	st.Classes[h.root+":"+strings.Join(h.kinds, ",")]++
 	if len(st.Samples) < 6 && len(h.lines) > 1 {
 		st.Samples = append(st.Samples, h.root+": "+strings.Join(h.lines, " ; "))
